@@ -57,7 +57,7 @@ static int which;        // 11 or 15: which property's oracle classes may raise 
 static int p_wrapped, p_overlong, p_overlong_notice, p_dump_ok, p_dump_failed, p_dump_damaged_by_fault, p_second_dump, p_empty_dump,
 	p_print_pristine, p_print_damaged_ok, p_print_damaged_err, p_print_garbage, p_rehash, p_shmcheck, p_records_checked,
 	p_internal_records, p_read_fault_print, p_nofile_print, p_damage[D_N], p_fw_short, p_fw_err, p_fw_lost, p_fr_short, p_fr_err,
-	p_deep_print, p_mll_set, p_newline_stripped;
+	p_deep_print, p_mll_set, p_newline_stripped, p_window;
 
 static void init(const char *prop)
 {
@@ -83,6 +83,7 @@ static void init(const char *prop)
 	p_deep_print = counter_id("probe", "damaged_file_reached_record_decoding");
 	p_mll_set = counter_id("probe", "max_line_length_configured");
 	p_newline_stripped = counter_id("probe", "trailing_newline_record");
+	p_window = counter_id("probe", "printer_ring_placed_between_guard_regions");
 	for (int k = 0; k < D_N; k++) { std::string n = std::string("damage_") + damage_names[k]; p_damage[k] = counter_id("probe", n.c_str()); }
 	p_fw_short = counter_id("probe", "dump_write_short_fired");
 	p_fw_err = counter_id("probe", "dump_write_error_fired");
@@ -488,9 +489,47 @@ struct St {
 	char *capbuf = NULL; size_t caplen = 0;
 	bool inited = false;
 	char name[32];
+	int print_mmaps = 0;
+	std::vector<std::pair<void *, size_t> > plugs;
 };
 static St *Gp;
 #define G (*Gp)
+
+// The ring the printer re-creates from the file is a plain mmap: an index beyond it would land in whatever the kernel happened
+// to map next to it (in practice this process's own live blackbox ring), silently and differently from process to process.
+// So the printer's ring is given a place of its own: immediately before libqb reserves the address range (its second mmap
+// inside qb_rb_open) every free gap that could take the range is plugged and a window of exactly that size is opened inside
+// a large PROT_NONE reservation. The kernel then has one place left to put it, and any access outside the ring's double
+// mapping (up to several ring sizes away) faults at once, in every process alike.
+static void place_ring_window()
+{
+	char path[96];
+	struct stat sb;
+	snprintf(path, sizeof path, "/dev/shm/qb-create_from_file%d-data", (int)getpid());
+	if (stat(path, &sb) != 0 || sb.st_size <= 0 || sb.st_size > (64 << 20)) return;
+	size_t W = 2 * (size_t)sb.st_size, lo = 1 << 20, hi = 6 * (size_t)sb.st_size + (1 << 20);
+	char *res = (char *)mmap(NULL, lo + W + hi, PROT_NONE, MAP_PRIVATE | MAP_ANONYMOUS | MAP_NORESERVE, -1, 0);
+	if (res == MAP_FAILED) return;
+	for (int n = 0; n < 2048; n++) {
+		char *q = (char *)mmap(NULL, W, PROT_NONE, MAP_PRIVATE | MAP_ANONYMOUS | MAP_NORESERVE, -1, 0);
+		if (q == MAP_FAILED) break;
+		if (q < res) { munmap(q, W); break; }       // nothing above the reservation can take the range any more
+		G.plugs.push_back(std::make_pair((void *)q, W));
+	}
+	munmap(res + lo, W);
+	G.plugs.push_back(std::make_pair((void *)res, lo));
+	G.plugs.push_back(std::make_pair((void *)(res + lo + W), hi));
+	count(p_window);
+}
+static void release_ring_window()
+{
+	for (size_t n = 0; n < G.plugs.size(); n++) munmap(G.plugs[n].first, G.plugs[n].second);
+	G.plugs.clear();
+}
+static void on_call(uint32_t site)
+{
+	if (Gp && G.in_print && site == S_MMAP && ++G.print_mmaps == 2) place_ring_window();
+}
 
 static void on_fault(int kind)
 {
@@ -1056,9 +1095,11 @@ static void op_print()
 	G.fault_since = false;
 	scrub_stack(G.stack_fill, G.spec->seed);
 	unsigned prev_alarm = alarm(60);       // wall-clock backstop for a printer that spins without making a libc call
+	G.print_mmaps = 0;
 	G.in_print = true;
 	int rc = qb_log_blackbox_print_from_file(G.path.c_str());
 	G.in_print = false;
+	release_ring_window();
 	alarm(prev_alarm);
 	fflush(stdout);
 	std::string out;
@@ -1155,7 +1196,7 @@ static void run_scenario(const char *prop, const RunSpec &spec)
 	c.shm_quota_bytes = 64 << 20;            // bounds what a lying word_size can make the printer allocate
 	shim_random_seed(spec.seed);
 	shim_hooks().on_fault = on_fault;
-	if (getenv("SIMK_BB_HIST")) shim_hooks().on_call = [](uint32_t site) { static uint64_t h[S_N]; static uint64_t n; h[site]++; if (++n % 20000 == 0) { for (int k = 0; k < S_N; k++) if (h[k]) fprintf(stderr, "site %d: %llu\n", k, (unsigned long long)h[k]); fprintf(stderr, "--\n"); } };
+	shim_hooks().on_call = on_call;
 
 	SchedCfg sc;
 	sched_cfg_from_seed(spec.seed, 1, 1000, 2000000, sc);
